@@ -74,10 +74,16 @@ func (args *AtDateAndTimeArgs) AtTime(now gotime.Time, config app.Config) (klog.
 	if today.IsEqualTo(date) {
 		return time, nil
 	} else if today.PlusDays(-1).IsEqualTo(date) {
-		shiftedTime, _ := time.Plus(klog.NewDuration(24, 0))
+		shiftedTime, err := time.Plus(klog.NewDuration(24, 0))
+		if err != nil {
+			return nil, newUnrepresentableTimeError(err)
+		}
 		return shiftedTime, nil
 	} else if today.PlusDays(1).IsEqualTo(date) {
-		shiftedTime, _ := time.Plus(klog.NewDuration(-24, 0))
+		shiftedTime, err := time.Plus(klog.NewDuration(-24, 0))
+		if err != nil {
+			return nil, newUnrepresentableTimeError(err)
+		}
 		return shiftedTime, nil
 	}
 	return nil, app.NewErrorWithCode(
@@ -85,6 +91,15 @@ func (args *AtDateAndTimeArgs) AtTime(now gotime.Time, config app.Config) (klog.
 		"Missing time parameter",
 		"Please specify a time value for dates in the past",
 		nil,
+	)
+}
+
+func newUnrepresentableTimeError(err error) app.Error {
+	return app.NewErrorWithCode(
+		app.LOGICAL_ERROR,
+		"Unrepresentable time",
+		"The time cannot be expressed relative to the date of the record",
+		err,
 	)
 }
 
